@@ -318,6 +318,15 @@ func (fr *FnRun) selField(v Val, name string, env *Env) Val {
 				}
 			}
 		}
+		if d, ok := ex.DB.Delegates[TypeKey(x.T)]; ok {
+			if s, ok := under(x.T).(*types.Struct); ok {
+				for i := 0; i < s.NumFields(); i++ {
+					if s.Field(i).Name() == d {
+						return fr.selField(ex.force(env.st, x.F[i]), name, env)
+					}
+				}
+			}
+		}
 		panic(abortf("contract: no field %s in %s", name, x.T))
 	case *IfaceV:
 		if x.Pay != nil {
